@@ -208,7 +208,7 @@ func (e *SpecEnv) eval(x SpecExpr) Val {
 			if !isId || e.f == nil {
 				e.fail("& is only supported on local variables")
 			}
-			defs := e.f.locals[id.Name]
+			defs := e.f.defsOf(id.Name)
 			for i := len(defs) - 1; i >= 0; i-- {
 				if defs[i].addr {
 					if v, ok := e.f.vals[defs[i].val]; ok {
@@ -359,6 +359,10 @@ func (e *SpecEnv) evalBinary(x *SBinary) Val {
 		return Val{T: boolT, S: implies(a.S, b.S)}
 	case "<==>":
 		a, b := e.eval(x.X), e.eval(x.Y)
+		if strings.Contains(a.S, "(forall ") || strings.Contains(a.S, "(exists ") || strings.Contains(b.S, "(forall ") || strings.Contains(b.S, "(exists ") {
+			// a quantifier under `=` sits in both polarities at once: the solvers handle two implications far better
+			return Val{T: boolT, S: fmt.Sprintf("(and (=> %s %s) (=> %s %s))", a.S, b.S, b.S, a.S)}
+		}
 		return Val{T: boolT, S: fmt.Sprintf("(= %s %s)", a.S, b.S)}
 	case "&&":
 		a, b := e.eval(x.X), e.eval(x.Y)
@@ -450,6 +454,16 @@ func (e *SpecEnv) evalBinary(x *SBinary) Val {
 			case "+", "-", "*":
 				return Val{T: a.T, S: fmt.Sprintf("(%s %s %s)", x.Op, a.S, b.S)}
 			}
+		}
+	}
+	if (x.Op == "==" || x.Op == "!=") && a.T != nil && b.T != nil {
+		// interface value against a pointer (err == Nil): the pointer is converted to the interface, as Go does
+		_, ai := a.T.Underlying().(*types.Interface)
+		_, bi := b.T.Underlying().(*types.Interface)
+		if ai && !bi && isPointerLike(b.T) && !isNilVal(b) {
+			b = Val{T: a.T, S: fmt.Sprintf("(mk_iface %d %s)", c.typeID(b.T), c.termOf(b))}
+		} else if bi && !ai && isPointerLike(a.T) && !isNilVal(a) {
+			a = Val{T: b.T, S: fmt.Sprintf("(mk_iface %d %s)", c.typeID(a.T), c.termOf(a))}
 		}
 	}
 	if (x.Op == "==" || x.Op == "!=") && a.T != nil && isFloat(a.T) {
@@ -780,6 +794,11 @@ func (e *SpecEnv) evalCall(x *SCall) Val {
 			}
 			v, found := c.lastCall[id.Name]
 			if !found {
+				// the call is translated later than this clause (block order): when the function has exactly one
+				// call of that name, a placeholder stands for its result and is identified with it once it exists
+				if pv, ok := e.preReturned(id.Name); ok {
+					return pv
+				}
 				e.fail("returned(%s): no call of %s precedes this point", id.Name, id.Name)
 			}
 			if cb := c.lastCallBlock[id.Name]; cb != nil && e.block != nil && cb != e.block && !cb.Dominates(e.block) {
@@ -790,6 +809,11 @@ func (e *SpecEnv) evalCall(x *SCall) Val {
 			return v
 		case "effects":
 			return Val{T: types.Typ[types.Int], S: e.st.get(HeapKey{Name: "G_effects", Sort: "Int"})}
+		case "calls": // calls(NAME): how many calls of NAME this activation has made so far (ghost counter, callassert.go)
+			if len(x.Args) != 1 || e.st == nil {
+				e.fail("calls() takes one function / field / parameter name")
+			}
+			return Val{T: types.Typ[types.Int], S: e.st.get(callsKey(x.Args[0].String()))}
 		case "fresh": // fresh(x): the object / backing array x refers to was allocated during this call (or x is nil)
 			v := e.eval(x.Args[0])
 			if e.old == nil {
@@ -1235,10 +1259,58 @@ func (e *SpecEnv) callPure(fn *ssa.Function, args []Val) Val {
 	cur := &blockCur{f: host, b: blk, st: e.st, reach: "true"}
 	nobl := len(c.obls)
 	c.pureSeq++
+	c.pureSpec++
+	defer func() { c.pureSpec-- }()
 	v, ok := host.inlineCall(cur, nil, fn, args, nil, t, fmt.Sprintf("pure%d_%s", c.pureSeq, quoteSymInner(fn.Name())))
 	c.obls = c.obls[:nobl]
 	if !ok {
 		e.fail("cannot evaluate %s as a pure function (loops or unsupported instructions)", fn.Name())
 	}
 	return v
+}
+
+// preReturned: placeholder for the result of the unique, not yet translated call of `name` in the function under
+// verification (single-valued results only).
+func (e *SpecEnv) preReturned(name string) (Val, bool) {
+	c := e.c
+	if e.f == nil || c.rootFn == nil {
+		return Val{}, false
+	}
+	var hit ssa.CallInstruction
+	n := 0
+	for _, b := range c.rootFn.Blocks {
+		for _, in := range b.Instrs {
+			ci, ok := in.(ssa.CallInstruction)
+			if !ok {
+				continue
+			}
+			if assertMatches(name, ci.Common(), ci.Common().StaticCallee()) {
+				hit = ci
+				n++
+			}
+		}
+	}
+	call, isCall := hit.(*ssa.Call)
+	if n != 1 || !isCall {
+		return Val{}, false
+	}
+	if _, isTup := call.Type().(*types.Tuple); isTup {
+		return Val{}, false
+	}
+	if c.preRet == nil {
+		c.preRet = map[ssa.Instruction]Val{}
+	}
+	if v, ok := c.preRet[call]; ok {
+		return v, true
+	}
+	root := e.f
+	for root.callerFrame != nil {
+		root = root.callerFrame
+	}
+	saved := c.inlineDefs
+	c.inlineDefs = 0
+	v := root.freshVal(call.Type(), "pre_"+sanitize(name))
+	c.inlineDefs = saved
+	c.preRet[call] = v
+	return v, true
 }
